@@ -13,14 +13,6 @@ import (
 // Harnesses written for C09 that gosymx cannot execute yet (needs the extra
 // build tag c09gaps, so `gosymx check C09` does not see it):
 //
-// (*Case).Eval starts with `span, ctx := ctx.Span("expression.Case"); defer
-// span.End()`. With a nil context Span returns the package variable
-// sql.noopSpan, created at package init by
-// trace.NewNoopTracerProvider().Tracer(..).Start(..); the executor keeps it as
-// a poisoned opaque value and every path aborts with
-// "method call on poison: ... method Tracer on opaque trace.TracerProvider".
-// Natively the harness runs (conformance vectors: native=ok).
-//
 // VerifC09DecimalPathSweep computes through apd.Decimal / math/big
 // ("callee outside allow-list: (*math/big.Int).SetUint64", "...String"), even on
 // concrete operands. It has no nd inputs; it was run natively once with
@@ -28,33 +20,6 @@ import (
 // "sql/expression","vals":{}} (with this file temporarily under the plain
 // verif tag): REPRODUCED, failed assertions
 // [c09.decimal-path.intdiv-mixed-sign.in-range.negative-quotient], nothing else.
-
-// VerifC09Case: CASE WHEN c THEN a [ELSE b] END and CASE x WHEN y THEN a ELSE b
-// END over integer columns whose common type is an integer type (a BIGINT
-// UNSIGNED branch together with a signed branch makes the type DECIMAL(65,0):
-// excluded).
-func VerifC09Case() {
-	at := nd.Pick("atype", len(c09Types))
-	bt := nd.Pick("btype", len(c09Types))
-	nd.Assume(!(at == c09Uint64 && !c09Unsigned(bt)))
-	nd.Assume(!(bt == c09Uint64 && !c09Unsigned(at)))
-	shape := nd.Pick("shape", 3)
-	m := c09ModePairs[nd.Pick("modes", nd.Bound(3, len(c09ModePairs)))]
-	a, av := c09Field(1, "a", at, m[0])
-	b, bv := c09Field(2, "b", bt, m[1])
-	cond, cv := c09Field(0, "c", c09Int8, nd.Pick("cmode", 2)+1)
-	row := sql.Row{cv, av, bv}
-	var e sql.Expression
-	switch shape {
-	case 0:
-		e = NewCase(nil, []CaseBranch{{Cond: cond, Value: a}}, b)
-	case 1:
-		e = NewCase(nil, []CaseBranch{{Cond: cond, Value: a}}, nil)
-	default:
-		e = NewCase(cond, []CaseBranch{{Cond: NewLiteral(int8(1), types.Int8), Value: a}}, b)
-	}
-	c09Check("c09.case", "", e, row)
-}
 
 // VerifC09DecimalPathSweep: the operator/type combinations that compute through
 // decimals (math/big: not executable by gosymx, so this harness only runs
